@@ -5,7 +5,8 @@
       putTo            a URL-shaped FullPath is stored VERBATIM when AllowUrls (no containment check);
                        otherwise, when AllowFiles: filepath.HasPrefix(FullPath, root)  (a plain STRING
                        prefix test on Unix), then p, err := filepath.Rel(root, FullPath); the stored
-                       reference is ToSlash(p)
+                       reference is ToSlash(p) — the identity on POSIX, where '\\' is an ordinary
+                       file-name character: the stored string IS Rel's result
       readDataObj      the dispatcher: a URL-shaped stored reference goes to readURLDataObj (which
                        refuses unless AllowUrls), anything else to readFileDataObj (refuses unless AllowFiles)
       readFileDataObj  abspath := filepath.Join(root, FromSlash(stored)); open, ReadAt, re-hash
